@@ -737,7 +737,8 @@ def keyless_candidates(rng, model, spent, index, kind, count):
             tail = wit0[-3:] if sh.annex_of(wit0) is not None else wit0[-2:]
             wit.extend(tail if rng.random() < 0.8 else tail[:2])
         if kind.startswith("p2pkh") and rng.random() < 0.3:
-            ss = ss[:2] + [rng.choice(voc["sigs"] or [b""]), rng.choice([c for c in ss0 if isinstance(c, bytes)] or [b""])]
+            # the victim's public key is public; the victim's signature of course is not part of what a keyless attacker has
+            ss = ss[:2] + [rng.choice(voc["sigs"] or [b""]), rng.choice([c for c in ss0 if isinstance(c, bytes) and not is_ecdsa_blob(c)] or [b""])]
         try:
             set_ss(m, index, ss)
         except Exception:  # noqa: BLE001
